@@ -11,7 +11,7 @@ CONSTANTS
   MaxOps = 100000
   GenHist = FALSE
   F2Fixed = TRUE
-  CuGuard = FALSE
+  CuGuard = TRUE
   Profile = ""
 INIT TInit
 NEXT TNext
